@@ -422,6 +422,12 @@ func (s *Lexer) getNextToken() (*Token, error) {
 			buf.WriteRune(ch)
 			current_state = SBLOCKCOMMENT
 		} else if current_state == SCOMMENTSTART {
+			if ch == '\n' {
+				// an empty line comment ends at its own line end
+				s.unread_last()
+				current_state = SCOMMENT
+				break
+			}
 			buf.WriteRune(ch)
 			current_state = SCOMMENT
 		} else if ch == '(' && current_state == SSTART {
